@@ -10,7 +10,7 @@ SPEC = {
         'validation callbacks on the scheduler thread, drained before every wallet call',
     ],
     'stages': [
-        gen('vh_c41', 'c41_createtx', 400, 6000, min_cases_quick=120,
+        gen('vh_c41', 'c41_createtx', 208, 4000, min_cases_quick=64,
             floors={'create-ok': 0.5, 'with-change': 0.4, 'subtract-fee': 0.25, 'subtract-fee-multi': 0.1, 'multi-input': 0.3, 'preset-inputs': 0.2,
                     'test-accepted': 0.4, 'coins-of->=3-output-types': 0.4, 'committed': 0.15, 'locked-coins': 0.1},
             rule='funded wallet + 1-5 CreateTransaction calls; non-trivial = successes with change, with a subtract-fee recipient and with >=2 inputs in one case'),
